@@ -208,10 +208,13 @@ def eval_cases(pid, cases_by_fn, tie, workdir, log, shard=400):
 
 # ------------------------------------------------------------------ findings / evidence
 def load_known():
-    p = os.path.join(VERIF, "known_findings.json")
-    if not os.path.exists(p):
-        return {"findings": [], "fixed": []}
-    return json.load(open(p))
+    """known_findings.json is the committed union of known_findings.d/*.json (rebuilt by lib/mkmanifest.py)."""
+    res = {"findings": [], "fixed": []}
+    for p in sorted(glob.glob(os.path.join(VERIF, "known_findings.d", "*.json"))):
+        d = json.load(open(p))
+        res["findings"] += d.get("findings", [])
+        res["fixed"] += d.get("fixed", [])
+    return res
 
 def write_evidence(pid, ev):
     os.makedirs(os.path.join(VERIF, "evidence"), exist_ok=True)
